@@ -121,6 +121,13 @@ pub fn strategy_values() -> BoxedStrategy<VCase> {
 pub fn streams() -> Vec<Box<dyn AnyStream>> {
     vec![
         Box::new(Stream::<SCase> {
+            name: "token-sequences",
+            quick: 0,
+            thorough: 0,
+            source: Source::Enum(Box::new(|tier| Box::new(strgen::token_space(tier == Tier::Thorough).map(|(fi, s)| SCase { fi, class: "tokens".into(), s })))),
+            check: Box::new(check_string),
+        }),
+        Box::new(Stream::<SCase> {
             name: "strings",
             quick: 50_000,
             thorough: 3_000_000,
